@@ -235,7 +235,14 @@ struct RBDL_DLLAPI Body {
 #ifndef RBDL_USE_CASADI_MATH
     if (new_mass == 0.)
     {
-      throw Errors::RBDLError("Error: cannot separate bodies as both have zero mass!\n");
+      // the remainder is massless: its centre of mass is arbitrary, only
+      // the inertia that is left over remains
+      Math::SpatialRigidBodyInertia this_rbi =
+          Math::SpatialRigidBodyInertia::createFromMassComInertiaC(mMass, mCenterOfMass, mInertia);
+      Math::Matrix3d inertia_left = Math::Matrix3d(this_rbi.toMatrix().block<3, 3>(0, 0))
+                                    - TransformInertiaToBodyFrame(transform, other_body);
+      *this = Body (0., Math::Vector3d (0., 0., 0.), inertia_left);
+      return;
     }
 #endif
 
